@@ -104,4 +104,72 @@ theorem no_crash_single_version (B : Path) (fs0 : FS) (h0 : Clean B fs0) (ws : L
   rw [this, hstep]
   exact ⟨_, hfin.tgt, hfin.dir, honly⟩
 
+/-- "Absent only before the first completed rename": if the target is absent after a history,
+then every `Write` of that history was killed before it completed its `Rename` (the rename is
+operation number `files.length + 5` of a `Write`). -/
+theorem target_absent_only_before_first_rename (B : Path) (fs0 : FS) (h0 : Clean B fs0)
+    (evs : List Ev) (h : look (run B (init fs0) evs).fs (target B) = none) :
+    ∀ ev ∈ evs, ∃ f k, ev = .crash f k ∧ k < f.length + 5 := by
+  intro ev hev
+  obtain ⟨e1, e2, rfl⟩ := List.append_of_mem hev
+  have hinv := inv_history B fs0 h0 e1
+  have contra : look (step B (run B (init fs0) e1) ev).fs (target B) ≠ none → False := by
+    intro hp
+    have hp' : look (run B (init fs0) (e1 ++ [ev])).fs (target B) ≠ none := by
+      rw [run_append]; exact hp
+    have := target_never_disappears B fs0 h0 (e1 ++ [ev]) e2 hp'
+    simp only [List.append_assoc, List.singleton_append] at this
+    exact this h
+  cases ev with
+  | write f =>
+    exfalso; apply contra
+    obtain ⟨fs', hstep, hfin⟩ := write_result B _ _ f hinv
+    rw [hstep, hfin.tgt]; simp
+  | crash f k =>
+    by_cases hk : k < f.length + 5
+    · exact ⟨f, k, rfl, hk⟩
+    · exfalso; apply contra
+      rw [crash_after_rename_present B _ _ f k hinv (by omega)]; simp
+
+/-! ### the code before the repair -/
+
+/-- Concrete witness (old step order, no removal of a stale `.new`): a `Write` killed right
+after its `Symlink` (4 operations: 2 mkdirs, 1 file, the symlink), then two `Write`s by a fresh
+`Dir`: both fail with EEXIST and the target never appears. -/
+theorem stale_new_witness :
+    (runWith origSteps [.str "b"] (init [])
+      [.crash [(.str "a", [1])] 4, .write [(.str "a", [2])]]).lastErr = some .EEXIST ∧
+    (runWith origSteps [.str "b"] (init [])
+      [.crash [(.str "a", [1])] 4, .write [(.str "a", [2])], .write []]).lastErr = some .EEXIST ∧
+    look (runWith origSteps [.str "b"] (init [])
+      [.crash [(.str "a", [1])] 4, .write [(.str "a", [2])], .write []]).fs (target [.str "b"]) = none := by
+  decide
+
+/-- The same history on the repaired step order succeeds. -/
+theorem stale_new_repaired :
+    (run [.str "b"] (init [])
+      [.crash [(.str "a", [1])] 4, .write [(.str "a", [2])]]).lastErr = none := by
+  decide
+
+/-- Before the repair, for ANY state in which `<target>.new` exists (e.g. after the crash above),
+every `Write` of every later sequence of `Write`s fails and `<target>.new` stays: "forever". -/
+theorem stale_new_blocks_forever (B : Path) (s : St) (ws : List Files) (w : Files)
+    (h : look s.fs (targetNew B) ≠ none) :
+    (runWith origSteps B s ((ws ++ [w]).map .write)).lastErr ≠ none ∧
+    look (runWith origSteps B s ((ws ++ [w]).map .write)).fs (targetNew B) ≠ none := by
+  have stays : ∀ (ws : List Files) (s : St), look s.fs (targetNew B) ≠ none →
+      look (runWith origSteps B s (ws.map .write)).fs (targetNew B) ≠ none := by
+    intro ws
+    induction ws with
+    | nil => intro s h; exact h
+    | cons w ws ih => intro s h; exact ih _ (orig_write_blocked B s w h).2
+  have : runWith origSteps B s ((ws ++ [w]).map .write) =
+      stepWith origSteps B (runWith origSteps B s (ws.map .write)) (.write w) := by
+    simp [runWith, List.foldl_append]
+  rw [this]
+  exact orig_write_blocked B _ w (stays ws s h)
+
+example : look (runWith origSteps [.str "b"] (init []) [.crash [(.str "a", [1])] 4]).fs
+    (targetNew [.str "b"]) ≠ none := by decide
+
 end Kit.Dir
